@@ -17,6 +17,26 @@ pub struct C17;
 
 pub const ENUM_P: u64 = 3200;
 pub const ENUM_E: u64 = 96;
+// ... followed by ENUM_F slots per program that corrupt, one at a time, every call
+// name and every string/list '+' the generator knows about
+pub const ENUM_F: u64 = 64;
+
+fn flip_candidates(w2: &W2Prog) -> Vec<Item> {
+    let mut v = vec![];
+    for n in 0..w2.tok_off.len() {
+        if let Some(off) = w2.tok_off[n] {
+            if is_op_node(w2, n) {
+                if matches!(w2.site[n].as_str(), "operator:string" | "operator:list") {
+                    v.push(Item::Flip { off, bytes: b"-".to_vec() });
+                }
+            } else {
+                v.push(Item::Flip { off, bytes: b"q".to_vec() });
+            }
+        }
+    }
+    v.dedup();
+    v
+}
 
 const WORLD_DIMS: &[&str] = &["rand", "stdout", "stderr", "merged", "spelling", "cwd_name", "file_name", "rel"];
 
@@ -197,7 +217,7 @@ impl Property for C17 {
         if tier == "thorough" { 1_500_000 } else { 40_000 }
     }
     fn rule(&self) -> String {
-        "thorough tier additionally enumerates, for 3200 W2 programs, every single fault (write-call index of the fault-free run x {one-shot ENOSPC, persistent EIO}) up to 48 write calls; sampled cases: case = (W2 call-tree program, 70%) x (write error / torn write on fd 1 at a write-call index of the run, 6 errnos, one-shot or persistent, optionally under write chunking and EINTR) | (W1 corpus program, 30%) x (sink kinds, 2>&1, path spelling, hash keys, invisible events); oracle for a fired sink fault with print j in flight (identified from acknowledged bytes): exit 103; stdout is a prefix of the model output covering prints < j; stderr line 1 = '<argv1>:<L>:<C>:[ in '<f>':] <text>' with f the model's innermost function and (L,C) the print call; Stacktrace has exactly one line per active call with the model's caller names and call positions, ending at <root>; no internal identifier in the text; fault-free W2 run = model stdout, empty stderr, exit 0; W1: transcript equals reference, exit 0 <=> stderr empty, merged stream = stdout ++ stderr; non-trivial = a fault fired or world differs; distinct = distinct (program, world, plan)".to_string()
+        "thorough tier additionally enumerates, for 3200 W2 programs, every single fault (write-call index of the fault-free run x {one-shot ENOSPC, persistent EIO}) up to 48 write calls, and every single corruption of a call name or of a string/list '+' (up to 64 per program); sampled cases: case = (W2 call-tree program, 70%) x (storage corruption of a call name => undefined name | of a string/list '+' => operator type error | of a statement-level space into ',' => syntax error, 25% of these | write error / torn write on fd 1 at a write-call index of the run, 6 errnos, one-shot or persistent, optionally under write chunking and EINTR) | (W1 corpus program, 30%) x (sink kinds, 2>&1, path spelling, hash keys, invisible events); oracle for a fired sink fault with print j in flight (identified from acknowledged bytes), and likewise for a corrupted call/operator at its first evaluation: exit 103; stdout is a prefix of the model output covering prints < j; stderr line 1 = '<argv1>:<L>:<C>:[ in '<f>':] <text>' with f the model's innermost function and (L,C) the print call; Stacktrace has exactly one line per active call with the model's caller names and call positions, ending at <root>; no internal identifier in the text; fault-free W2 run = model stdout, empty stderr, exit 0; W1: transcript equals reference, exit 0 <=> stderr empty, merged stream = stdout ++ stderr; non-trivial = a fault fired or world differs; distinct = distinct (program, world, plan)".to_string()
     }
     fn assumptions(&self) -> Vec<String> {
         vec![
@@ -217,6 +237,22 @@ impl Property for C17 {
     fn gen_case(&self, ctx: &Ctx, worker: usize, rng: &mut Rng, index: u64) -> Case {
         // thorough tier: the first ENUM_P * ENUM_E indices enumerate every single
         // sink fault (write index x {one-shot, persistent}) of ENUM_P programs
+        if ctx.tier == "thorough" && index >= ENUM_P * ENUM_E && index < ENUM_P * (ENUM_E + ENUM_F) {
+            let k = index - ENUM_P * ENUM_E;
+            let prog_i = k % ENUM_P;
+            let slot = (k / ENUM_P) as usize;
+            let mut prng = Rng::for_run(ctx.seed, "C17-enum-program", prog_i);
+            let p = crate::w2::pick(&mut prng, &crate::w2::GenOpts::default());
+            let w2p = crate::w2::build(&p.aux);
+            let cands = flip_candidates(&w2p);
+            let mut plan = Plan::new();
+            if slot < cands.len() {
+                plan.items.push(cands[slot].clone());
+            }
+            let mut aux = p.aux.clone();
+            aux["enum_flip"] = serde_json::json!({"program": prog_i, "slot": slot, "candidates": cands.len()});
+            return Case { label: p.label, program: p.program, aux, world: World::reference(), plan };
+        }
         if ctx.tier == "thorough" && index < ENUM_P * ENUM_E {
             let prog_i = index % ENUM_P;
             let slot = index / ENUM_P;
@@ -465,6 +501,18 @@ fn check_w2(ctx: &Ctx, worker: usize, case: &Case) -> Outcome {
             return out;
         }
         out.probes.push("enum:case".into());
+    }
+    if let Some(e) = case.aux.get("enum_flip") {
+        let slot = e.get("slot").and_then(|v| v.as_u64()).unwrap_or(0);
+        let cands = e.get("candidates").and_then(|v| v.as_u64()).unwrap_or(0);
+        if slot == 0 {
+            out.probes.push(if cands <= ENUM_F { "enum:flips-fully-enumerated".into() } else { "enum:flips-partly-enumerated".into() });
+        }
+        if slot >= cands {
+            out.skipped = Some("enum-slot-beyond-run".into());
+            return out;
+        }
+        out.probes.push("enum:flip-case".into());
     }
     let r = ctx.run(worker, &case.program, &case.world, &case.plan);
     out.io_events = r.events.len() as u64;
